@@ -302,6 +302,31 @@ def api_stream(ck, qr, numpy):
                 before = numpy.array(RT.data).copy()
                 RT.secularize()
                 secular_oracle(numpy, before, numpy.array(RT.data), ck, inp, "api-second-call")
+            if not opts.get("secular_relaxation") and d_site.ndim == 4:
+                # secularising in ANOTHER basis than the one the tensor is stored in (no read of .data in between):
+                # the elements of the tensor in the basis where secularize() is called are what is kept / zeroed
+                try:
+                    with eigenbasis_of(ham):
+                        RT.secularize()
+                        d_sec = numpy.array(RT.data).copy()
+                    sc_ = max(float(numpy.abs(d_ex).max()), 1e-300)
+                    n_ = d_ex.shape[0]
+                    bad = None
+                    for a in range(n_):
+                        for b in range(n_):
+                            for c in range(n_):
+                                for d in range(n_):
+                                    keep = (a == b and c == d) or (a == c and b == d)
+                                    if keep and abs(d_sec[a, b, c, d] - d_ex[a, b, c, d]) > 1e-9 * sc_:
+                                        bad = ("kept element changed", (a, b, c, d))
+                                    if not keep and abs(d_sec[a, b, c, d]) > 1e-9 * sc_:
+                                        bad = ("element not zeroed", (a, b, c, d))
+                    if bad:
+                        ck.fail("secular:other-basis:%s" % tag, "secularize() inside eigenbasis_of(H) on a tensor stored in the site basis: %s at %s" % bad, inp)
+                    identities(numpy, d_sec, "tensor secularised in the exciton basis", ck, inp, "secular-identities:other-basis:" + tag)
+                    ck.case(("api-sec-other", s, tag), nontrivial=float(numpy.abs(d_ex).max()) > 0, kind="secularize-in-other-basis", theory=theory)
+                except Exception as e:
+                    ck.fail("raises:secular:other-basis:%s" % tag, "secularize() inside eigenbasis_of raised %r" % (e,), inp)
             nz = float(numpy.abs(d_site).max())
             ck.case(("api", s, tag), nontrivial=nz > 0, kind="api", theory=theory,
                     sample={"api": tag, "sites": nmol, "max|R|": nz} if s == 0 and theory == "standard_Foerster" else None)
